@@ -19,8 +19,10 @@ structure CtxEvol (x y : Ctx) : Prop where
   final : x.state = .completed → y.state = .completed
   /-- C10: a repeated context with a positive total never has more batches than its total -/
   bnd : TotBound x → TotBound y
+  /-- C19: the record stays valid on its own (`RequestContext.Validate`) -/
+  fields : ctxFieldsOK x = true → ctxFieldsOK y = true
 
-theorem CtxEvol.refl (x : Ctx) : CtxEvol x x := ⟨rfl, rfl, rfl, rfl, rfl, Nat.le_refl _, fun h => h, fun h => h⟩
+theorem CtxEvol.refl (x : Ctx) : CtxEvol x x := ⟨rfl, rfl, rfl, rfl, rfl, Nat.le_refl _, fun h => h, fun h => h, fun h => h⟩
 
 /-- every context of `s'` comes from the context of `s` with the same id by an allowed evolution -/
 def CtxsEvol (s s' : State) : Prop :=
@@ -54,7 +56,7 @@ theorem pauseK_evol (s : State) (c : CtxId) (cons : Addr) : CtxsEvol s (pauseK s
     split; · exact CtxsEvol.refl s
     split; · exact CtxsEvol.refl s
     rename_i _ _ _ hrun
-    refine ctxsEvol_set hx rfl ⟨rfl, rfl, rfl, rfl, rfl, Nat.le_refl _, fun h => ?_, fun h => h⟩
+    refine ctxsEvol_set hx rfl ⟨rfl, rfl, rfl, rfl, rfl, Nat.le_refl _, fun h => ?_, fun h => h, fun h => h⟩
     have : x.state = .running := by simpa using hrun
     rw [this] at h; cases h
 
@@ -69,7 +71,7 @@ theorem startK_evol (s : State) (c : CtxId) (cons : Addr) : CtxsEvol s (startK s
     rename_i _ _ hp
     have hp' : x.state = .paused := by simpa using hp
     have he : CtxEvol x { x with state := .running } :=
-      ⟨rfl, rfl, rfl, rfl, rfl, Nat.le_refl _, (fun h => by rw [hp'] at h; cases h), fun h => h⟩
+      ⟨rfl, rfl, rfl, rfl, rfl, Nat.le_refl _, (fun h => by rw [hp'] at h; cases h), fun h => h, fun h => h⟩
     split
     · exact ctxsEvol_set hx rfl he
     · exact ctxsEvol_set hx rfl he
@@ -82,10 +84,11 @@ theorem killK_evol (s : State) (c : CtxId) (cons : Addr) : CtxsEvol s (killK s c
     dsimp only
     split; · exact CtxsEvol.refl s
     split; · exact CtxsEvol.refl s
-    exact ctxsEvol_set hx rfl ⟨rfl, rfl, rfl, rfl, rfl, Nat.le_refl _, fun _ => rfl, fun h => h⟩
+    exact ctxsEvol_set hx rfl ⟨rfl, rfl, rfl, rfl, rfl, Nat.le_refl _, fun _ => rfl, fun h => h, fun h => h⟩
 
 theorem updateK_evol (s : State) (c : CtxId) (cons : Addr) (provs : List Addr) (thr : Nat) (cap : Option Nat)
-    (timeout : Int) (freq : Nat) (total : Int) : CtxsEvol s (updateK s c cons provs thr cap timeout freq total).1 := by
+    (timeout : Int) (freq : Nat) (total : Int) (hval : validateCtxUpdate provs cap timeout freq total = none) :
+    CtxsEvol s (updateK s c cons provs thr cap timeout freq total).1 := by
   unfold updateK
   cases hx : Map.get s.ctxs c with
   | none => exact CtxsEvol.refl s
@@ -102,7 +105,7 @@ theorem updateK_evol (s : State) (c : CtxId) (cons : Addr) (provs : List Addr) (
       split; · exact CtxsEvol.refl s
       split; · exact CtxsEvol.refl s
       split; · exact CtxsEvol.refl s
-      rename_i _ _ _ htot
+      rename_i hcap0 _ _ htot
       obtain ⟨⟨c1, c2, c3, _, _, _⟩, _, _, hr, hst, hsup⟩ := updThr_ok hu
       have hmod : x1.mod = x.mod := by
         unfold updThr at hu; dsimp only at hu
@@ -116,7 +119,51 @@ theorem updateK_evol (s : State) (c : CtxId) (cons : Addr) (provs : List Addr) (
         all_goals first
           | (simp at hu; done)
           | (injection hu with hu; subst hu; rfl)
-      refine ctxsEvol_set hx rfl ⟨c2, c1, hsup, hr, hmod, Nat.le_of_eq c3.symm, fun h => absurd h hnc, ?_⟩
+      have hprovs : x1.provs = x.provs ∧ x1.cap = x.cap := by
+        unfold updThr at hu; dsimp only at hu
+        repeat' (split at hu)
+        all_goals first
+          | (simp at hu; done)
+          | (injection hu with hu; subst hu; exact ⟨rfl, rfl⟩)
+      refine ctxsEvol_set hx rfl ⟨c2, c1, hsup, hr, hmod, Nat.le_of_eq c3.symm, fun h => absurd h hnc, ?_, ?_⟩
+      rotate_left
+      · -- validity of the updated record: new providers / cap passed `ValidateRequestContextUpdating`
+        intro hf
+        unfold validateCtxUpdate at hval
+        have hlen : ¬ provs.length > 10 := by
+          intro hh; rw [if_pos hh] at hval; cases hval
+        rw [if_neg hlen] at hval
+        have hnd : provs.Nodup := by
+          by_cases hh : provs.Nodup
+          · exact hh
+          · rw [if_pos hh] at hval; cases hval
+        unfold ctxFieldsOK at hf ⊢
+        simp only [Bool.and_eq_true, Bool.not_eq_true', decide_eq_true_eq, ne_eq] at hf ⊢
+        obtain ⟨⟨⟨⟨⟨f1, f2⟩, f3⟩, f4⟩, f5⟩, f6⟩ := hf
+        show (((((validName (updFields x1 provs cap _ _ total).svc = true ∧ _) ∧ _) ∧ _) ∧ _) ∧ _)
+        have e1 : (updFields x1 provs cap (effTimeout x timeout) (effFreq x freq) total).svc = x.svc := c2
+        have e2 : (updFields x1 provs cap (effTimeout x timeout) (effFreq x freq) total).cons = x.cons := c1
+        have e3 : (updFields x1 provs cap (effTimeout x timeout) (effFreq x freq) total).provs =
+            if provs.isEmpty then x1.provs else provs := rfl
+        have e4 : (updFields x1 provs cap (effTimeout x timeout) (effFreq x freq) total).cap = cap.getD x1.cap := by
+          cases cap <;> rfl
+        rw [e1, e2, e3, e4, hprovs.1, hprovs.2]
+        refine ⟨⟨⟨⟨⟨f1, ?_⟩, ?_⟩, ?_⟩, f5⟩, ?_⟩
+        · by_cases he : provs.isEmpty = true
+          · rw [if_pos he]; exact f2
+          · rw [if_neg he]; simpa using he
+        · by_cases he : provs.isEmpty = true
+          · rw [if_pos he]; exact f3
+          · rw [if_neg he]; omega
+        · by_cases he : provs.isEmpty = true
+          · rw [if_pos he]; exact f4
+          · rw [if_neg he]; exact hnd
+        · cases cap with
+          | none => exact f6
+          | some n =>
+            show 0 < n
+            have : n ≠ 0 := fun e0 => hcap0 (by rw [e0])
+            omega
       intro hb hrep hpos
       have hrep' : x.rep = true := by rw [← hr]; exact hrep
       show ((updFields x1 provs cap (effTimeout x timeout) (effFreq x freq) total).batch : Int) ≤ _
@@ -154,8 +201,8 @@ theorem respond_evol (s : State) (r : ReqId) (pv : Addr) (code : Nat) (out : Out
         obtain ⟨bank', bs, ea, oe, hshape, _⟩ := settle_shape hs
         subst hshape
         split
-        · exact ctxsEvol_set hx rfl ⟨rfl, rfl, rfl, rfl, rfl, Nat.le_refl _, fun h => h, fun h => h⟩
-        · exact ctxsEvol_set hx rfl ⟨rfl, rfl, rfl, rfl, rfl, Nat.le_refl _, fun h => h, fun h => h⟩
+        · exact ctxsEvol_set hx rfl ⟨rfl, rfl, rfl, rfl, rfl, Nat.le_refl _, fun h => h, fun h => h, fun h => h⟩
+        · exact ctxsEvol_set hx rfl ⟨rfl, rfl, rfl, rfl, rfl, Nat.le_refl _, fun h => h, fun h => h, fun h => h⟩
 
 end SM
 
@@ -164,7 +211,7 @@ open Map
 
 theorem CtxEvol.trans {x y z : Ctx} (h1 : CtxEvol x y) (h2 : CtxEvol y z) : CtxEvol x z :=
   ⟨h2.svc.trans h1.svc, h2.cons.trans h1.cons, h2.super.trans h1.super, h2.rep.trans h1.rep, h2.mod.trans h1.mod,
-   Nat.le_trans h1.batch h2.batch, fun h => h2.final (h1.final h), fun h => h2.bnd (h1.bnd h)⟩
+   Nat.le_trans h1.batch h2.batch, fun h => h2.final (h1.final h), fun h => h2.bnd (h1.bnd h), fun h => h2.fields (h1.fields h)⟩
 
 theorem CtxsEvol.trans {a b c : State} (h1 : CtxsEvol a b) (h2 : CtxsEvol b c) : CtxsEvol a c := by
   intro k z hz
@@ -206,7 +253,8 @@ theorem expireBatch_evol (s : State) (c : CtxId) (h : Inv s) (hnp : (expireBatch
         have h1 : CtxsEvol s (expirePending s c x).1.s := ctxsEvol_of_eq i2.2.2.2.2.1
         refine h1.trans (expireTail_evol _ c x _ (by rw [i2.2.2.2.2.1]; exact hx) ?_)
         exact ⟨i4.svc, i4.cons, i4.super, i4.rep, i7, Nat.le_of_eq i4.batch.symm, fun hh => by rw [i5]; exact hh,
-          fun hb hrep hpos => by rw [i4.batch, i6]; rw [i4.rep] at hrep; rw [i6] at hpos; exact hb hrep hpos⟩
+          fun hb hrep hpos => by rw [i4.batch, i6]; rw [i4.rep] at hrep; rw [i6] at hpos; exact hb hrep hpos,
+          fun hf => by unfold ctxFieldsOK at hf ⊢; rw [i4.svc, i4.provs, i4.cons, i4.cap]; exact hf⟩
       · simp only [hp] at hnp; cases hnp
 
 theorem issueBatch_ctxs (s : State) (bank' : Bank) (c : CtxId) (x : Ctx) (el : List (Addr × Nat)) (ep : List Effect) :
@@ -247,11 +295,11 @@ theorem newBatch_evol (s : State) (c : CtxId) (h : Inv s) : CtxsEvol s (newBatch
             unfold startOrSkip
             split
             · split
-              · exact ctxsEvol_set hx (issueBatch_ctxs ..) ⟨rfl, rfl, rfl, rfl, rfl, Nat.le_succ _, fun e => (hnotc e).elim, fun hb hrep hpos => hnext hb hrep hpos⟩
+              · exact ctxsEvol_set hx (issueBatch_ctxs ..) ⟨rfl, rfl, rfl, rfl, rfl, Nat.le_succ _, fun e => (hnotc e).elim, fun hb hrep hpos => hnext hb hrep hpos, fun h => h⟩
               · cases hb : bankSend s.bank x.cons s.cfg.escrow (sumPrices (eligible s x)) with
-                | some bk => exact ctxsEvol_set hx (issueBatch_ctxs ..) ⟨rfl, rfl, rfl, rfl, rfl, Nat.le_succ _, fun e => (hnotc e).elim, fun hb hrep hpos => hnext hb hrep hpos⟩
-                | none => exact ctxsEvol_set hx rfl ⟨rfl, rfl, rfl, rfl, rfl, Nat.le_refl _, fun e => (hnotc e).elim, fun h => h⟩
-            · exact ctxsEvol_set hx rfl ⟨rfl, rfl, rfl, rfl, rfl, Nat.le_succ _, fun e => (hnotc e).elim, fun hb hrep hpos => hnext hb hrep hpos⟩
+                | some bk => exact ctxsEvol_set hx (issueBatch_ctxs ..) ⟨rfl, rfl, rfl, rfl, rfl, Nat.le_succ _, fun e => (hnotc e).elim, fun hb hrep hpos => hnext hb hrep hpos, fun h => h⟩
+                | none => exact ctxsEvol_set hx rfl ⟨rfl, rfl, rfl, rfl, rfl, Nat.le_refl _, fun e => (hnotc e).elim, fun h => h, fun h => h⟩
+            · exact ctxsEvol_set hx rfl ⟨rfl, rfl, rfl, rfl, rfl, Nat.le_succ _, fun e => (hnotc e).elim, fun hb hrep hpos => hnext hb hrep hpos, fun h => h⟩
           exact hstep
 
 theorem foldH_evol {α : Type} (hd : State → α → HRes) (P : State → Prop)
